@@ -766,12 +766,18 @@ def compare(out, tag, klass, res, ref, info):
 # ----------------------------------------------------------------------------- interpreter
 
 def strided_twin(q):
-    """float tensor with the size/stride the quantized wrapper reports, filled with its dequantized values"""
+    """float tensor with the size/stride the quantized wrapper reports (expanded dims included), filled with its
+    dequantized values"""
     d = q.dequantize()
+    size, stride = tuple(q.size()), tuple(q.stride())
     try:
-        t = torch.empty_strided(tuple(q.size()), tuple(q.stride()), dtype=d.dtype)
-        t.copy_(d)
-        return t
+        zero = [i for i, (n, st) in enumerate(zip(size, stride)) if st == 0 and n > 1]
+        base = d
+        for i in zero:
+            base = base.narrow(i, 0, 1)
+        t = torch.empty_strided(tuple(base.shape), stride, dtype=d.dtype)
+        t.copy_(base)
+        return t.expand(size) if zero else t
     except Exception:  # noqa: BLE001
         return d
 
